@@ -14,7 +14,7 @@ pub fn property() -> Property {
     Property {
         id: "C19",
         level: "fault_enumeration",
-        rule: "The scripted peer serves a prefix of a well-formed response and then PAUSES (a read arriving at the pause is what would block on a real socket and is recorded as blocked_read). Pause points: EVERY wire offset from the end of the head to the end of the frame for 18 fixed small responses (exhaustive; covers after-the-head, after each complete chunk, inside size lines / CRLFs, after every byte of length- and close-delimited bodies), sampled offsets and chunk boundaries for random and > 64 KiB bodies; served prefix as one segment, bytewise or random segments; caller read sizes {1,2,7,4096, larger than available}. Oracle (purely logical, no clock): send() returns Ok with zero blocked reads once the blank line was served; while the caller has received less than the AVAILABLE payload (all served bytes for length/close framing; data of every chunk whose trailing CRLF was served, computed by the reference decoder) no read may block, fail or report end-of-body, and delivered bytes equal the payload prefix; when the whole frame (length/chunked) was served the end-of-body read returns Ok(0) without blocking. write_to() and split().2.write_to() are driven at every pause offset of the 18 fixed responses too: the caller's writer must have received all AVAILABLE bytes before write_to first asks the transport for bytes the server has not sent. Non-trivial: available > 0 or pause right after the head; distinct = hash(wire, pause offset, segmentation, read size).",
+        rule: "The scripted peer serves a prefix of a well-formed response and then PAUSES (a read arriving at the pause is what would block on a real socket and is recorded as blocked_read). Pause points: EVERY wire offset from the end of the head to the end of the frame for 18 fixed small responses (exhaustive; covers after-the-head, after each complete chunk, inside size lines / CRLFs, after every byte of length- and close-delimited bodies), sampled offsets and chunk boundaries for random and > 64 KiB bodies; served prefix as one segment, bytewise or random segments; caller read sizes {1,2,7,4096, larger than available}. Oracle (purely logical, no clock): send() returns Ok with zero blocked reads once the blank line was served; while the caller has received less than the AVAILABLE payload (all served bytes for length/close framing; data of every chunk whose trailing CRLF was served, computed by the reference decoder) no read may block, fail or report end-of-body, and delivered bytes equal the payload prefix; when the whole frame (length/chunked) was served the end-of-body read returns Ok(0) without blocking; a followed redirect whose body the server holds back (5 statuses x 3 framings x 4 amounts served) is followed without a blocked read on the first connection. write_to() and split().2.write_to() are driven at every pause offset of the 18 fixed responses too: the caller's writer must have received all AVAILABLE bytes before write_to first asks the transport for bytes the server has not sent. Non-trivial: available > 0 or pause right after the head; distinct = hash(wire, pause offset, segmentation, read size).",
         assumptions: &["uncompressed bodies only (the statement's quantifier)", "delivering more than the statement's minimum (e.g. the first 64 KiB of an incomplete chunk) is not a violation"],
         min_nontrivial: |t| t.pick(5_000, 100_000),
         gens,
@@ -29,6 +29,7 @@ fn gens(tier: Tier) -> Vec<Gen> {
         Gen { name: "write_to-everyoffset", count: (0..N_FIXED).map(|i| fixed_span(i) * 4).sum(), exhaustive: true, run: run_write_to },
         Gen { name: "random", count: tier.pick(3_000, 300_000), exhaustive: false, run: run_random },
         Gen { name: "large", count: tier.pick(150, 5_000), exhaustive: false, run: run_large },
+        Gen { name: "redirect-then-pause", count: (5 * 3 * 4 * 2) as u64, exhaustive: true, run: run_redirect_pause },
         Gen { name: "nobody", count: 48, exhaustive: true, run: run_nobody },
         Gen { name: "both-framings", count: 2 * 3 * 14, exhaustive: true, run: run_both_framings },
     ]
@@ -452,4 +453,47 @@ fn run_write_to(ctx: &mut Ctx, rng: &mut Rng, index: u64) {
     let off = (idx / 4) as usize;
     let c = Case { framing, payload, sizes, styles, pause_at: b.head_len + off, seg_class: (idx % 2) as u8, read_size: if (idx / 2) % 2 == 0 { WRITE_TO } else { WRITE_TO_SPLIT } };
     run_case(ctx, rng, &c);
+}
+
+/// a followed redirect: once the head of the 3xx response has arrived the next request is made;
+/// send() does not wait for the rest of a redirect body the server is still holding back
+fn run_redirect_pause(ctx: &mut Ctx, _rng: &mut Rng, index: u64) {
+    let mut i = index as usize;
+    let status = [301u16, 302, 303, 307, 308][i % 5];
+    i /= 5;
+    let framing = ["Content-Length: 100\r\n", "Transfer-Encoding: chunked\r\n", ""][i % 3];
+    i /= 3;
+    // how much of the redirect body has arrived when the server pauses
+    let body: &[u8] = match (i % 4, framing.starts_with("Transfer")) {
+        (0, _) => b"",
+        (1, false) => b"m",
+        (1, true) => b"5\r\nmo",
+        (2, false) => b"moved, see the other place",
+        (2, true) => b"5\r\nmoved\r\n",
+        (_, false) => b"moved\n",
+        (_, true) => b"5\r\nmoved\r\n3\r\n",
+    };
+    i /= 4;
+    let bytewise = i % 2 == 1;
+    let mut first = format!("HTTP/1.1 {status} Moved\r\nLocation: /next\r\n{framing}\r\n").into_bytes();
+    first.extend_from_slice(body);
+    let world = World::install(move |_, idx, _| {
+        if idx == 0 {
+            let mut steps = if bytewise { Segmentation::Bytewise.apply(&first) } else { Segmentation::Whole.apply(&first) };
+            steps.push(Step::Pause);
+            crate::transport::Answer::Script(steps, crate::transport::WriteFaults::default())
+        } else {
+            crate::transport::Answer::Script(vec![Step::Data(b"HTTP/1.1 200 OK\r\nContent-Length: 2\r\n\r\nok".to_vec())], crate::transport::WriteFaults::default())
+        }
+    });
+    let res = attohttpc::get("http://origin.test/c19r").send();
+    let blocked = world.trace(0).blocked_reads;
+    let descr = format!("{status} with {framing:?} and {} body bytes served before the server pauses (bytewise={bytewise}): {:?}, {} connections, {blocked} blocked reads on the first", body.len(), res.as_ref().map(|r| r.status().as_u16()).map_err(|e| format!("{e:?}")), world.dial_count());
+    ctx.count("redirects_with_held_back_body", 1);
+    if blocked > 0 {
+        ctx.violation("send-blocked-after-head:redirect", format!("send() asked the redirecting server for bytes it has not sent although the head (with its Location) had arrived; {descr}"));
+    } else if !matches!(&res, Ok(r) if r.status().as_u16() == 200) || world.dial_count() != 2 {
+        ctx.violation("send-failed", format!("the redirect was not followed to its target; {descr}"));
+    }
+    ctx.nontrivial(descr.as_bytes());
 }
